@@ -92,6 +92,7 @@ func Load(dir string, deps bool, extraEnv ...string) (*Prog, error) {
 			continue
 		}
 		if !keepLogging {
+			p.merged += canonSwitch(pk)
 			p.merged += canonIfs(p.Fset, pk)
 		}
 		if normaliseCmp {
@@ -968,4 +969,111 @@ func stmtText(n ast.Node) string {
 		return true
 	})
 	return sb.String()
+}
+
+// canonSwitch rewrites a switch over a plain variable or field,
+//
+//	switch v { case a, b: S  case c: T  default: U }
+//
+// as the switch without tag that makes the same decisions in the same order,
+//
+//	switch { case v == a || v == b: S  case v == c: T  default: U }
+//
+// so that a decision written as a switch and the same decision written as an if-chain are one shape for the rules (a
+// case is then a condition vertex like any other). Only for tags that are free of calls, indexing and channel
+// operations (evaluating them once or once per case is the same) and for switches without fallthrough. The new nodes
+// get their entries in the package's type information.
+func canonSwitch(pk *packages.Package) int {
+	info := pk.TypesInfo
+	n := 0
+	var pureTag func(e ast.Expr) bool
+	pureTag = func(e ast.Expr) bool {
+		switch x := e.(type) {
+		case *ast.Ident:
+			_, isVar := info.Uses[x].(*types.Var)
+			return isVar
+		case *ast.ParenExpr:
+			return pureTag(x.X)
+		case *ast.SelectorExpr:
+			if s, ok := info.Selections[x]; ok && s.Kind() == types.FieldVal {
+				return pureTag(x.X)
+			}
+			// package-qualified variable
+			if id, ok := x.X.(*ast.Ident); ok {
+				if _, isPkg := info.Uses[id].(*types.PkgName); isPkg {
+					_, isVar := info.Uses[x.Sel].(*types.Var)
+					return isVar
+				}
+			}
+		}
+		return false
+	}
+	var clone func(e ast.Expr, at token.Pos) ast.Expr
+	clone = func(e ast.Expr, at token.Pos) ast.Expr {
+		var out ast.Expr
+		switch x := e.(type) {
+		case *ast.Ident:
+			id := &ast.Ident{NamePos: at, Name: x.Name}
+			if o := info.Uses[x]; o != nil {
+				info.Uses[id] = o
+			}
+			out = id
+		case *ast.ParenExpr:
+			out = &ast.ParenExpr{Lparen: at, X: clone(x.X, at), Rparen: at}
+		case *ast.SelectorExpr:
+			sel := &ast.SelectorExpr{X: clone(x.X, at), Sel: clone(x.Sel, at).(*ast.Ident)}
+			if s, ok := info.Selections[x]; ok {
+				info.Selections[sel] = s
+			}
+			out = sel
+		default:
+			return e
+		}
+		if tv, ok := info.Types[e]; ok {
+			info.Types[out] = tv
+		}
+		return out
+	}
+	for _, f := range pk.Syntax {
+		ast.Inspect(f, func(nd ast.Node) bool {
+			sw, ok := nd.(*ast.SwitchStmt)
+			if !ok || sw.Tag == nil || !pureTag(sw.Tag) {
+				return true
+			}
+			ft := false
+			for _, st := range sw.Body.List {
+				for _, b := range st.(*ast.CaseClause).Body {
+					if br, ok := b.(*ast.BranchStmt); ok && br.Tok == token.FALLTHROUGH {
+						ft = true
+					}
+				}
+			}
+			if ft {
+				return true
+			}
+			for _, st := range sw.Body.List {
+				cc := st.(*ast.CaseClause)
+				if len(cc.List) == 0 {
+					continue
+				}
+				var cond ast.Expr
+				for _, e := range cc.List {
+					eq := &ast.BinaryExpr{X: clone(sw.Tag, e.Pos()), OpPos: e.Pos(), Op: token.EQL, Y: e}
+					info.Types[eq] = types.TypeAndValue{Type: types.Typ[types.Bool]}
+					if cond == nil {
+						cond = eq
+					} else {
+						or := &ast.BinaryExpr{X: cond, OpPos: e.Pos(), Op: token.LOR, Y: eq}
+						info.Types[or] = types.TypeAndValue{Type: types.Typ[types.Bool]}
+						cond = or
+					}
+				}
+				cc.List = []ast.Expr{cond}
+			}
+			sw.Tag = nil
+			n++
+			return true
+		})
+	}
+	return n
 }
